@@ -64,7 +64,7 @@ class Array:
         self.contents = contents
 
     def __eq__(self, other):
-        return self.contents == other.contents
+        return isinstance(other, Array) and self.contents == other.contents
 
     def __str__(self):
         return str(self.contents)
